@@ -26,6 +26,11 @@ KINDS = [
     ('missing', 'GET', '/missing/{nm}?id={i}', b''),
     ('m405', 'GET', '/post?id={i}', b''),
     ('post', 'POST', '/post?id={i}', b'body-{i}'),
+    ('item_get', 'GET', '/item/{nm}?id={i}', b''),
+    ('item_head', 'HEAD', '/item/{nm}?id={i}', b''),
+    ('item_post', 'POST', '/item/{nm}?id={i}', b'body-{i}'),
+    ('item_put', 'PUT', '/item/{nm}?id={i}', b'body-{i}'),
+    ('item_del', 'DELETE', '/item/{nm}?id={i}', b''),
     ('boom', 'GET', '/boom?id={i}', b''),
     ('redir', 'GET', '/dir?id={i}', b''),
     ('dir', 'GET', '/dir/?id={i}', b''),
@@ -96,6 +101,30 @@ def summarise(ex, env):
     }
 
 
+def predict(cfg, r):
+    """What the request gets when served alone, PREDICTED from the application's source for the kinds where that is a
+    one-liner (measuring it on the shared application would inherit whatever an earlier request did to that application).
+    -> (status, body | None, Allow | None) or None"""
+    tok = ('tok-%d' % r['id']) if cfg.get('tok', True) else None
+    nm = r['target'].split('?')[0].rsplit('/', 1)[-1]
+    k = r['kind']
+    if k in ('item_get', 'item_head'):
+        return (200, '' if k == 'item_head' else 'iget|%s|%s|%d' % (nm, tok, r['id']), None)
+    if k == 'item_post':
+        return (200, 'ipost|%s|%s|%d' % (nm, tok, r['id']), None)
+    if k == 'item_put':
+        return (200, 'iput|%s|%s|%d' % (nm, tok, r['id']), None)
+    if k == 'item_del':
+        return (405, None, 'GET,HEAD,POST,PUT')
+    if k == 'post':
+        return (200, 'post|%s|%d|body-%d' % (tok, r['id'], r['id']), None)
+    if k == 'm405':
+        return (405, None, 'POST')
+    if k == 'missing':
+        return (404, None, None)
+    return None
+
+
 def comparable(s):
     d = {k: v for k, v in s.items() if k != 'ids'}
     d['n_ids'] = len(s['ids'])   # every layer of one request sees ONE id
@@ -110,7 +139,11 @@ def solo_steps(cfg, req, gran):
     the generator; generation is a function of the seed and the code)."""
     key = (canon(cfg), req['kind'], req.get('accept'), gran)
     if key not in _CAL:
-        app = app_for(cfg)
+        # an application of its own: calibration must not touch the ones the runs are judged on
+        ck = 'calibration:' + canon(cfg)
+        if ck not in _APPS:
+            _APPS[ck] = threads_app.build(cfg)
+        app = _APPS[ck]
         do_request(app, req)
         s = BatonScheduler(['T0'], [], gran, WATCH)
         s.run({'T0': lambda: do_request(app, req)})
@@ -149,7 +182,7 @@ class C12(Check):
                  'OS threads (parked/released one at a time)'],
         'stub': ['WSGI server and HTTP clients (SimGateway)', 'thread scheduling choice (BatonScheduler)'],
     }
-    required_probes = ('marathon', 'cold-application', 'switch-in-clastic', 'switch-in-sinter', 'gran-ins', 'gran-line', 'threads-4')
+    required_probes = ('predicted-response-compared', 'marathon', 'cold-application', 'switch-in-clastic', 'switch-in-sinter', 'gran-ins', 'gran-line', 'threads-4')
 
     # ---- generation ------------------------------------------------------
     def gen_config(self, rng):
@@ -369,6 +402,17 @@ class C12(Check):
             r = [x for x in reqs if x['name'] == name][0]
             all_ids.extend(g['ids'])
             res.ev(name, r['kind'], r['id'], 'code', g['code'], 'escaped', g['escaped'])
+            for what, s in (('alone', e), ('concurrently', g)):
+                p = predict(plan['config'], r)
+                if p is None or s['escaped']:
+                    continue
+                res.probe('predicted-response-compared')
+                if s['code'] != p[0] or (p[1] is not None and s['body'] != p[1]) or (p[2] is not None and s['headers'].get('allow') != p[2]):
+                    res.violate('C12/%s/differs-from-source-prediction:%s' % (r['kind'], what),
+                                '%s (%s %s) served %s: status %s body %r Allow %r; the application source says %r\n history: %s'
+                                % (name, r['method'], r['target'], what, s['code'], s['body'][:80], s['headers'].get('allow'), p,
+                                   [(x['name'], x['method'], x['target']) for x in reqs]))
+                    break
             if comparable(g) != comparable(e):
                 diff = [k for k in comparable(e) if g.get(k) != e.get(k)]
                 res.violate('C12/%s/differs-from-alone:%s' % (r['kind'], ','.join(sorted(diff))),
